@@ -323,6 +323,9 @@ func checkImportedLog(log ledger.Log) error {
 		if payload.RevertedTransaction.ID == nil || payload.RevertedTransaction.RevertedAt == nil {
 			return fmt.Errorf("log %d: reverted transaction without id or revert date", *log.ID)
 		}
+		if err := checkTransaction(payload.RevertedTransaction); err != nil {
+			return err
+		}
 		return checkTransaction(payload.RevertTransaction)
 	case nil:
 		return fmt.Errorf("log %d: no payload", *log.ID)
